@@ -4,6 +4,7 @@
   the flag set.  For the unlocked shape the negation is witnessed by a concrete 2-thread schedule.
 -/
 import LspVerif.Core.Conc
+import LspVerif.Core.Hist
 namespace LspVerif.Conc
 
 def PC.critical : PC → Bool
@@ -16,21 +17,23 @@ structure Inv (g : G) : Prop where
   noRaise : ∀ t, (g.th t).raised = false
   doneFlag : ∀ t, (g.th t).pc = .done → g.flag = true
   unlockFlag : ∀ t, (g.th t).pc = .unlock → g.flag = true
+  flagResolved : g.flag = true → g.allResolved = true
+  setFlagResolved : ∀ t, (g.th t).pc = .setFlag → g.allResolved = true
 
 theorem inv_init : Inv init := by
-  constructor <;> intro t <;> simp [init, PC.critical]
+  constructor <;> intro t <;> simp_all [init, PC.critical]
 
 theorem inv_step (sh : Shape) (hs : sh.safe = true) (K : Nat) (g : G) (t : Nat) (h : Inv g) : Inv (step sh K g t) := by
   simp only [Shape.safe, Bool.and_eq_true] at hs
   obtain ⟨⟨hl, hr⟩, _⟩ := hs
-  obtain ⟨c, s, r, d, uf⟩ := h
+  obtain ⟨c, s, r, d, uf, fr, sr⟩ := h
   unfold step
   have hnr := r t
   simp only [hnr, Bool.false_eq_true, if_false]
   cases hpc : (g.th t).pc <;> simp only [hl, hr, if_true, Bool.not_true, Bool.or_false, Bool.true_and]
   all_goals (try (split))
   all_goals (try (split))
-  all_goals (constructor <;> intro u <;> by_cases hu : u = t <;> (try simp [G.set, hu]) <;> grind [PC.critical, G.set])
+  all_goals (constructor <;> (try intro u) <;> (try by_cases hu : u = t) <;> (try simp [G.set, hu]) <;> grind [PC.critical, G.set])
 
 /-- C19 (schedules): every reachable state of every number of threads under every schedule. -/
 theorem inv_run (sh : Shape) (hs : sh.safe = true) (K : Nat) (sched : List Nat) : Inv (run sh K init sched) := by
@@ -43,8 +46,9 @@ theorem inv_run (sh : Shape) (hs : sh.safe = true) (K : Nat) (sched : List Nat) 
 
 theorem C19_schedules (sh : Shape) (hs : sh.safe = true) (K : Nat) (sched : List Nat) :
     let g := run sh K init sched
-    (∀ t, (g.th t).raised = false) ∧ (∀ t, (g.th t).pc = .done → g.flag = true) :=
-  ⟨(inv_run sh hs K sched).noRaise, (inv_run sh hs K sched).doneFlag⟩
+    (∀ t, (g.th t).raised = false) ∧ (∀ t, (g.th t).pc = .done → g.flag = true ∧ g.allResolved = true) :=
+  let h := inv_run sh hs K sched
+  ⟨h.noRaise, fun t ht => ⟨h.doneFlag t ht, h.flagResolved (h.doneFlag t ht)⟩⟩
 
 /-- The unsynchronised shape of the pinned tree: a 3-step schedule of two threads raises
     (T0 enters the filter, T1 runs to its first resolve, T0 advances its iterator). -/
@@ -59,3 +63,27 @@ example : ((run lockedShape 1 init [0, 0, 1, 1, 0, 0, 0, 0, 0, 0, 0, 1, 1, 1, 1]
           ((run lockedShape 1 init [0, 0, 1, 1, 0, 0, 0, 0, 0, 0, 0, 1, 1, 1, 1]).th 0).pc = .done := by decide
 
 end LspVerif.Conc
+
+namespace LspVerif.Hist
+
+/-- C19 (histories): whatever converters were created before, with whatever configurations and in
+    whatever number, the converter a creation returns is the one the same creation returns in a
+    fresh process. -/
+theorem history_independent {Cfg Conv : Type} (regs : Cfg → Conv) (hist : List Cfg) (cfg : Cfg) (w0 : W) :
+    (create regs cfg (after regs hist w0)).1 = (create regs cfg {}).1 := rfl
+
+/-- and earlier creations are not affected by later ones: the value returned is not revisited -/
+theorem creation_order_irrelevant {Cfg Conv : Type} (regs : Cfg → Conv) (h1 h2 : List Cfg) (cfg : Cfg) :
+    (create regs cfg (after regs h1 {})).1 = (create regs cfg (after regs h2 {})).1 := rfl
+
+theorem flag_after {Cfg Conv : Type} (regs : Cfg → Conv) (hist : List Cfg) (w0 : W) (h : hist ≠ []) :
+    (after regs hist w0).flag = true := by
+  unfold after
+  induction hist generalizing w0 with
+  | nil => exact absurd rfl h
+  | cons c rest ih =>
+    cases rest with
+    | nil => rfl
+    | cons d rest' => exact ih _ (by simp)
+
+end LspVerif.Hist
